@@ -2,6 +2,8 @@ CONSTANTS Ws = {1, 2, 3}  Hs = {1, 2}  SBs = {0, 1}  TABs = {1}  MaxOps = 5
   Kind = "fb"  Bug = ""  Props = {"C18"}  EmitMode = "none"  EmitMod = 1
 CONSTANT Bytes <- MCBytes
 CONSTANT CurVals <- MCCurVals
+CONSTANT Chunks <- MCChunk1
+CONSTANT Cols <- MCCols1
 INIT Init
 NEXT Next
 INVARIANT NoMismatch
